@@ -19,6 +19,7 @@
                      transceivers, fused elements or existing amplifiers.
  R6 every OMS      : build_network runs set_egress_amplifier for every ROADM and transceiver, which dispatches on Edfa,
                      RamanFiber and Multiband_amplifier and fails loudly when no model is permitted.
+ Rm memo          : every memoisation construct in the functions behind this property is keyed by everything it reads.
 """
 import ast
 
@@ -416,5 +417,10 @@ def r6_every_oms(ctx):
     ctx.need('R6.every-oms', 4)
 
 
+
+from ..memo import rule_for as _memo_rule
+
+RULES_MEMO = ('Rm.memo', _memo_rule('C08', 'a structural decision taken for another element would be reused'))
+
 RULES = [('R1.surgery', r1_surgery), ('R2.edge-weight', r2_weights), ('R3.completeness', r3_completeness), ('R4.split', r4_split),
-         ('R5.order', r5_order), ('R6.every-oms', r6_every_oms)]
+         ('R5.order', r5_order), ('R6.every-oms', r6_every_oms), RULES_MEMO]
